@@ -12,23 +12,8 @@
 (* tree).  Design "versioned": a report is dropped if a newer snapshot was  *)
 (* already delivered (the repair).                                          *)
 (***************************************************************************)
-EXTENDS Naturals, Sequences, FiniteSets, TLC, Json
+EXTENDS MdnsOracle, Json
 CONSTANTS Services, MaxEvents, Design, EmitMode
-
-Addrs    == {"v4a", "v4b", "v6g", "v6ll"}
-Usable(A) == A \ {"v6ll"}                       \* IPv6 link-local addresses are dropped
-TxtClasses == {"valid", "validBadCat", "noVers", "vers2", "noId", "noPath", "noSki", "ownSki", "regNotBool"}
-ValidTxt(c) == c \in {"valid", "validBadCat"}
-
-\* ---- the requirement: the table as a function of the event history
-ApplyEv(tab, e) ==
-    IF ~ValidTxt(e.txt) THEN tab
-    ELSE IF e.remove THEN [s \in DOMAIN tab \ {e.s} |-> tab[s]]
-    ELSE IF e.s \in DOMAIN tab THEN [tab EXCEPT ![e.s] = @ \cup Usable(e.addrs)]
-    ELSE [s \in DOMAIN tab \cup {e.s} |-> IF s = e.s THEN Usable(e.addrs) ELSE tab[s]]
-Empty == [s \in {} |-> {}]
-RECURSIVE OracleF(_, _)
-OracleF(h, i) == IF i = 0 THEN Empty ELSE ApplyEv(OracleF(h, i - 1), h[i])
 
 VARIABLES entries, nev, pending, nextVer, lastVer, lastDelivered, delivered, script
 vars == <<entries, nev, pending, nextVer, lastVer, lastDelivered, delivered, script>>
@@ -62,8 +47,10 @@ Deliver(r) ==
     /\ script' = IF EmitMode = "none" THEN script ELSE Append(script, [op |-> "Deliver", ver |-> r.ver])
     /\ UNCHANGED <<entries, nev, nextVer>>
 
-Next == \/ \E s \in Services, txt \in TxtClasses, addrs \in SUBSET Addrs, remove \in BOOLEAN :
-              (remove => addrs = {}) /\ Resolve(s, txt, addrs, remove)
+\* (the sequence has duplicates on purpose: it weights the simulator's choice towards valid records)
+TxtWeighted == <<"valid", "valid", "valid", "valid", "validBadCat", "validBadCat", "noVers", "vers2", "noId", "noPath", "noSki", "ownSki", "regNotBool">>
+Next == \/ \E s \in Services, i \in 1..Len(TxtWeighted), addrs \in SUBSET Addrs, remove \in BOOLEAN :
+              (remove => addrs = {}) /\ Resolve(s, TxtWeighted[i], addrs, remove)
         \/ \E r \in pending : Deliver(r)
 Spec == Init /\ [][Next]_vars /\ WF_vars(\E r \in pending : Deliver(r))
 
